@@ -764,3 +764,9 @@ fn index_static(header: &Header) -> Option<(usize, bool)> {
         },
     }
 }
+
+#[cfg(feature = "verif")]
+#[allow(missing_docs, dead_code, unused_imports)]
+pub(crate) mod verif_h {
+    include!(concat!(env!("H2_VERIF_DIR"), "/harness/hpack/table.rs"));
+}
